@@ -57,6 +57,8 @@ var vC10Cases = []vC10Case{
 	{"str(int(V))", c10Text, "ab", "019", 1, 2, func(k, v []byte) any { return vDecimal(int(vC10Int(v))) }},
 	{"int(str(int(V)))", c10Int, "ab", "019", 1, 2, func(k, v []byte) any { return vDecimalValue(v) }},
 	{"int(V)", c10Int, "ab", "0123456789", 1, 3, func(k, v []byte) any { return vDecimalValue(v) }},
+	{"int(V)", c10Int, "ab", "0123456789", 16, 18, func(k, v []byte) any { return vDecimalValue(v) }}, // beyond 2^53
+	{"int_list(int(V), 2)[0]", c10Int, "ab", "0123456789", 17, 18, func(k, v []byte) any { return vDecimalValue(v) }},
 	{"float(V)", c10Float, "ab", "012", 1, 1, func(k, v []byte) any { return float64(vC10Int(v)) }},
 	{"float(V + '.5')", c10Float, "ab", "012", 1, 1, func(k, v []byte) any { return float64(vC10Int(v)) + 0.5 }},
 	{"is_int(V)", c10Bool, "ab", "1a+-", 0, 2, func(k, v []byte) any { return vIsDecimal(v) }},
